@@ -95,7 +95,8 @@ def ck_eval_native(cex, nat):
         if nat["n"] != cex["n"] - (1 if had else 0): bad.append("delete_len")
         if c_post != c_pre - (1 if (had and same) else 0): bad.append("delete_class_counts")
     elif op == "query":
-        if (res == "true") != (cx_pre >= 1): bad.append("query_iff_copy_stored")
+        if cx_pre >= 1 and res != "true": bad.append("query_true_if_copy_stored")
+        if cx_pre < 1 and res == "true": bad.append("query_false_if_no_copy")
         if post != pre or nat["n"] != cex["n"]: bad.append("query_is_pure")
     elif op == "union":
         cb = ck_count(cex["slots_b"], h, g, gi, bs, nb)
@@ -215,6 +216,12 @@ def run_m_units(pid, tier, units, seed, ev, outcome):
             rec["status"] = "inconclusive"
             outcome["inconclusive"].append("%s: solver unknown / model limit: %s" % (u["name"], ",".join(unknown)[:300]))
             continue
+        from . import props as _props
+        failed, other = _props.split_scope(pid, u["name"], failed)
+        rec["failed_tags"] = failed
+        rec["out_of_scope_failed"] = other
+        if other:
+            rec["notes"].append("failed obligations of other properties (not counted here): " + ",".join(other))
         need = u.get("need_witness", [])
         missing = [w for w in need if not r.get("witnesses", {}).get(w)]
         if not failed:
